@@ -213,6 +213,10 @@ class Deg:
     def callexpr(self, e, env):
         Z = Fraction(0)
         name = ast.unparse(e.func)
+        # results that are lengths whatever they are bound to
+        if isinstance(e.func, ast.Attribute) and e.func.attr in getattr(
+                self, "length_attrs", ()):
+            return Fraction(1)
         args = [self.expr(a, env) for a in e.args]
         if name in ZERO:
             return Z
@@ -394,18 +398,23 @@ def rule_hd2(ctx):
         if isinstance(n, ast.FunctionDef):
             funcs["utils." + n.name] = n
             funcs[n.name] = n
+    # lengths are recognised by where they come from, not by the names they
+    # are bound to: affine coordinates, circle centres / radii, and the
+    # centre / radius parameters of the affine disk predicates
     targets = [
-        (CP, "CP1Disk.center_inside",
-         {"circ_ctr": 1, "circ_rad": 1, "int_pt_coords": 1}),
-        (CORE, "disk_interactions", {"c1": 1, "r1": 1, "c2": 1, "r2": 1}),
-        (CORE, "affine_disks_contain",
-         {"cout": 1, "rout": 1, "cin": 1, "rin": 1}),
+        (CP, "CP1Disk.center_inside", 0),
+        (CORE, "disk_interactions", 4),
+        (CORE, "affine_disks_contain", 4),
     ]
-    for rel, q, lengths in targets:
+    for rel, q, nlen in targets:
         f = ctx.p.get_function(rel, q)
         r.analysed(f)
         dg = Deg(funcs)
         dg.false_flags = [set()]
+        dg.length_attrs = {"real_affine_coords", "affine_coords",
+                           "circle_parameters"}
+        pnames = [a.arg for a in f.node.args.args if a.arg != "self"]
+        lengths = {p: 1 for p in pnames[:nlen]}
         env = {a.arg: Fraction(0) for a in f.node.args.args}
         bad = []
         ncmp = 0
